@@ -1,6 +1,6 @@
 (* C18: pure list inductions over the abstract pairwise merge. *)
 From Coq Require Import List ZArith Bool Lia.
-From YP Require Import Outcome MultiDoc.
+From YP Require Import Outcome MergeConfig MultiDoc.
 Import ListNotations.
 
 Section P.
@@ -105,4 +105,29 @@ Theorem across_error_stops : forall l ls r rs l' x c,
   merge_across doc merge2 (l :: ls) (r :: rs) = Ok (l' :: ls, st_across c).
 Proof. intros. simpl. rewrite H, H0. reflexivity. Qed.
 
+(* merge_docs: the dispatcher hands the WHOLE loaded stream -- every document,
+   empty ones included, in file order -- to the driver of the selected mode *)
+Theorem merge_docs_dispatch : forall m ls rs,
+  merge_docs doc merge2 (Ok m) (Some rs) ls =
+  match m with
+  | MCondense => merge_condense_all doc merge2 ls rs
+  | MAcross => merge_across doc merge2 ls rs
+  | MMatrix => merge_matrix doc merge2 ls rs
+  end.
+Proof. reflexivity. Qed.
+
+Theorem merge_docs_unloaded : forall m ls, merge_docs doc merge2 (Ok m) None ls = Ok (ls, 3).
+Proof. reflexivity. Qed.
+
+Theorem merge_docs_bad_mode : forall e rs ls, merge_docs doc merge2 (Raise e) rs ls = Raise e.
+Proof. reflexivity. Qed.
+
+(* the number of output documents of merge-across under merge_docs: stream lengths alone *)
+Theorem merge_docs_across_count : forall ls rs out,
+  all_succeed -> merge_docs doc merge2 (Ok MAcross) (Some rs) ls = Ok (out, 0) ->
+  length out = Nat.max (length ls) (length rs).
+Proof.
+  intros ls rs out H E. rewrite merge_docs_dispatch in E. rewrite across_is_spec in E by assumption.
+  inversion E. apply across_spec_length.
+Qed.
 End P.
